@@ -15,7 +15,7 @@ PROP = {
 }
 
 CLAIM = {
-  "text": "Coq theorems over a labelled transition system of the accept goroutine, session goroutines and Start/Stop (every step sequence = every interleaving, every MaxClients): invariant (list length <= MaxClients, no duplicates, list = exactly the serving/ended connections, refused/removed connections are closed), at most MaxClients served at every instant, a connection arriving at the limit is closed and none of its requests is ever dispatched, swap-with-last removal deletes exactly the ended connection for every position, the slot is reclaimed and a later connection is served. The real server is steered through model traces (including the racy orders, forced deterministically through the verif yield points) and its active-list length / probe outcomes are compared after every step.",
+  "text": "Coq theorems over a labelled transition system of the accept goroutine, session goroutines and Start/Stop (every step sequence = every interleaving, every MaxClients): invariant (list length <= MaxClients, no duplicates, list = exactly the serving/ended connections, refused/removed connections are closed), at most MaxClients served at every instant, a connection arriving at the limit is closed and none of its requests is ever dispatched, swap-with-last removal deletes exactly the ended connection for every position, the slot is reclaimed and a later connection is served; idle expiry (timed model of the per-request deadline re-arming): closure no earlier than the timeout after the last request read began, and enabled exactly then. The real server is steered through model traces (including the racy orders, forced deterministically through the verif yield points) and its active-list length / probe outcomes are compared after every step.",
   "note": "partial: goroutine scheduling, socket close semantics and wall-clock idle expiry are runtime facts exercised by the harness (one-sided timing bounds), not modelled. Trusted: kernel, extraction, harness, yield hooks and VerifServerSnapshot.",
   "technique": "Coq proof (invariant by induction over all step sequences, Permutation lemma for swap-with-last) + steered real-server trace correspondence",
 }
